@@ -18,6 +18,11 @@ events:
                         ok = whether new_socket_connection succeeds
   ['B', req]            first request that is complete but no proxy request (answered 400)
   ['C', req, cuts]      follow-up client bytes (a complete request, segmented at cuts)
+  ['F', req, ok, cuts, [req, …]] / ['C', req, cuts, [req, …]]  the same with further complete requests packed
+                        into the write that carries the end of `req` (the code parses the first request of
+                        a read; what follows it in the same read is never looked at: follow-ups — the
+                        finished pipeline parser is discarded with its buffer, first request — it stays
+                        unread in request.buffer)
   ['U', hex]  upstream sends bytes      ['UE'] upstream closes
   ['CE'] client half-closes             ['CA'] client disappears
   ['CR'] client resets the connection (RST): afterwards recv/send/shutdown on the proxy side of the client
@@ -133,6 +138,19 @@ def req_model(req):
     lines = '|'.join(hx(L(h)) for h in req['h']) or '-'
     return ','.join([hx(L(req['m'])), hx(L(path)), hx(L(req['v'])), hx(L(host)), str(port),
                      '1' if tunnel else '0', hx(L(req['b'])), lines])
+
+
+def ev_segments(ev):
+    """client writes of an 'F' / 'B' / 'C' event.  An optional last element lists further complete requests
+    the client sends back to back in the same write as the end of this one (the event's own request is cut
+    only inside itself, so the last write carries its end plus all the packed requests)."""
+    k = ev[0]
+    raw = req_bytes(ev[1])
+    cuts = ev[3] if k == 'F' else (ev[2] if k == 'C' else [])
+    extra = (ev[4] if k == 'F' and len(ev) > 4 else ev[3] if k == 'C' and len(ev) > 3 else [])
+    if extra:
+        cuts = [c for c in cuts if c < len(raw)]
+    return segments(raw + b''.join(req_bytes(r) for r in extra), cuts)
 
 
 def segments(raw, cuts):
@@ -568,8 +586,7 @@ def simulate(case, drain=False):
             if k in ('F', 'B', 'C'):
                 if k == 'F':
                     sim.connect_ok = bool(ev[2])
-                cuts = ev[3] if k == 'F' else (ev[2] if k == 'C' else [])
-                gs = [sim.write_client(seg) for seg in segments(req_bytes(ev[1]), cuts)]
+                gs = [sim.write_client(seg) for seg in ev_segments(ev)]
                 if k == 'C':
                     groups += gs
                 else:
@@ -636,7 +653,7 @@ def ev_strs(ev):
     if k == 'B':
         return ['B']
     if k == 'C':
-        segs = segments(req_bytes(ev[1]), ev[2])
+        segs = ev_segments(ev)
         return ['C:%s:None' % hx(s) for s in segs[:-1]] + ['C:%s:%s' % (hx(segs[-1]), req_model(ev[1]))]
     if k == 'U':
         return ['U:' + (ev[1] or '-')]
@@ -790,13 +807,25 @@ def check_chain(case, order, toks, hook, first=None, auth_ok=True):
     return None, 'none', None, first
 
 
+def edits_missing(case, order, up, first):
+    """every edit a plugin made to a request that all plugins passed must be in the bytes forwarded"""
+    for label in order:
+        p = prog_of(case, label)
+        if p is None:
+            continue
+        val = b'c' if p[2] in ('M', 'N') else (b'b' if first and p[1] in ('M', 'N') else None)
+        if val is not None and b'\r\nX-P' + label.encode() + b': ' + val + b'\r\n' not in up:
+            return 'forwarded-request-lacks-a-plugins-edit'
+    return None
+
+
 def group_events(case):
     """event (and, for 'C', whether it is the last segment) behind every group of simulate()"""
     out = []
     for ev in case['evs']:
         if ev[0] == 'C':
-            n = len(segments(req_bytes(ev[1]), ev[2]))
-            out += [(ev, k == n - 1, seg) for k, seg in enumerate(segments(req_bytes(ev[1]), ev[2]))]
+            n = len(ev_segments(ev))
+            out += [(ev, k == n - 1, seg) for k, seg in enumerate(ev_segments(ev))]
         else:
             out.append((ev, True, None))
     return out
@@ -864,6 +893,10 @@ def judge(case, order, groups, sd):
         return 'handle_client_request-chain-did-not-run'
     if how2 in ('dropped', 'raised') and up:
         return 'request-forwarded-after-handle_client_request-%s' % how2
+    if how2 == 'done' and up and not req_fields(ev[1])[3]:
+        f = edits_missing(case, order, up, first=(how == 'done' or how == 'dropped'))
+        if f:
+            return f
     if how2 == 'raised':
         want = reject_bytes(act2)
         if not allcl.startswith(want) and not (lost and want.startswith(allcl)):
@@ -890,6 +923,10 @@ def judge(case, order, groups, sd):
                     return 'follow-up-forwarded-after-handle_client_request-%s' % h3
                 if h3 == 'done' and not g[1]:
                     return 'follow-up-not-forwarded-although-all-plugins-passed-it'
+                if h3 == 'done':
+                    f = edits_missing(case, order, g[1], first=False)
+                    if f:
+                        return 'follow-up-' + f
                 if h3 == 'raised' and reject_bytes(a3) not in allcl and not lost:
                     return 'reject-response-differs-from-the-plugins-choice'
         elif k == 'U':
@@ -958,14 +995,14 @@ def mk_req(rng, tunnel=False, auth=None, follow=False):
 def mk_prog(rng, label, quiet=0.6):
     def a3():
         r = rng.random()
-        return 'P' if r < quiet else 'M' if r < quiet + 0.2 else 'D'
+        return 'P' if r < quiet else rng.choice('MN') if r < quiet + 0.2 else 'D'
 
     def a5():
         r = rng.random()
         if r < quiet:
             return 'P'
         if r < quiet + 0.17:
-            return 'M'
+            return rng.choice('MN')
         if r < quiet + 0.29:
             return 'D'
         return rng.choice(REJECTS)
@@ -987,7 +1024,10 @@ def mk_events(rng, auth, quietfirst):
         req = mk_req(rng, tunnel, good)
         if auth and not good and rng.random() < 0.5:
             req['h'].append('Proxy-Authorization: Basic d3Jvbmc6Y3JlZHM=')
-        evs.append(['F', req, rng.random() < 0.9, mk_cuts(rng, len(req_bytes(req)))])
+        ev = ['F', req, rng.random() < 0.9, mk_cuts(rng, len(req_bytes(req)))]
+        if rng.random() < 0.06:
+            ev.append([mk_req(rng, False, auth if rng.random() < 0.7 else None)])
+        evs.append(ev)
     elif r < 0.95:
         evs.append(['B', {'m': 'GET', 'form': 'auth', 'host': '/', 'port': None, 'path': '', 'v': 'HTTP/1.1',
                           'h': ['Host: x'], 'b': ''}])
@@ -998,18 +1038,23 @@ def mk_events(rng, auth, quietfirst):
             x = 0.6         # client bytes before any first request would BE the first request
         if x < 0.3:
             fr = mk_req(rng, False, auth if rng.random() < 0.7 else None, follow=True)
-            evs.append(['C', fr, mk_cuts(rng, len(req_bytes(fr)), 0.3)])
+            ev = ['C', fr, mk_cuts(rng, len(req_bytes(fr)), 0.3)]
+            if rng.random() < 0.12:
+                ev.append([mk_req(rng, False, auth if rng.random() < 0.7 else None) for _ in range(rng.randrange(1, 3))])
+            evs.append(ev)
         elif x < 0.55:
             evs.append(['U', rng.choice([b'HTTP/1.1 200 OK\r\nContent-Length: 2\r\n\r\nhi', b'\x16\x03\x01tls', b'x',
                                          b'HTTP/1.1 304 Not Modified\r\n\r\n', b'garbage\r\n\r\n']).hex()])
         elif x < 0.8:
             evs.append(['FL'])
-        elif x < 0.87:
+        elif x < 0.86:
             evs.append(['UE'])
-        elif x < 0.94:
+        elif x < 0.91:
             evs.append(['CE'])
-        else:
+        elif x < 0.95:
             evs.append(['CA'])
+        else:
+            evs.append(['CR'])
     return evs
 
 
@@ -1023,7 +1068,13 @@ def mk_case(rng, nplug=None, quiet=0.6):
     if auth and rng.random() < 0.08:
         plugins.insert(rng.randrange(len(plugins) + 1), ['A'])
     dis = rng.choice([[], [], ['x-drop'], ['x-drop', 'accept'], ['X-Drop'], ['via', 'host']])
-    return {'auth': auth, 'dis': dis, 'plugins': plugins, 'evs': mk_events(rng, auth, quiet)}
+    case = {'auth': auth, 'dis': dis, 'plugins': plugins, 'evs': mk_events(rng, auth, quiet)}
+    if rng.random() < 0.12:
+        # the client resets the connection at some point (possibly only after everything else happened)
+        case['evs'].insert(rng.randrange(len(case['evs']) + 1), ['CR'])
+    if any(e[0] == 'CR' for e in case['evs']) and rng.random() < 0.15:
+        case['tcp'] = 1
+    return case
 
 
 def http_script(req, follow):
@@ -1077,6 +1128,25 @@ def corpus():
     cs.append({'auth': 'user:pass', 'dis': [], 'plugins': [mod(3), ['A'], mod(3)],
                'evs': http_script(dict(req, h=req['h'] + ['Proxy-Authorization: Basic dXNlcjpwYXNz']), fol)})
     cs.append({'auth': 'user:pass', 'dis': [], 'plugins': [mod(3)], 'evs': http_script(req, fol)})
+    new = lambda l: [l, 'N', 'N', 'N', 'N', 'N', P]
+    # every plugin returns a NEW object: later plugins and the forwarded bytes must still see all edits
+    cs.append({'auth': None, 'dis': [], 'plugins': [new(0), new(1), new(2)], 'evs': http_script(req, fol)})
+    cs.append({'auth': None, 'dis': [], 'plugins': [mod(2), new(0), quiet(1)], 'evs': http_script(req, fol)})
+    cs.append({'auth': 'user:pass', 'dis': [], 'plugins': [new(1), new(0)],
+               'evs': http_script(dict(req, h=req['h'] + ['Proxy-Authorization: Basic dXNlcjpwYXNz']), fol)})
+    # the client resets the connection (conn.shutdown() in handler.shutdown() raises): hooks still exactly once
+    for tcp in (0, 1):
+        for evs in ([['F', req, True, []], ['CR']],
+                    [['F', req, True, []], ['U', '6869'], ['CR']],
+                    [['F', req, True, []], ['U', '6869'], ['FL'], ['C', fol, []], ['CR']],
+                    [['F', req, True, []], ['UE'], ['CR']],
+                    [['F', _base_req(tunnel=True), True, []], ['CR']],
+                    [['F', req, False, []], ['CR']],
+                    [['F', dict(req, h=['Host: example.org']), True, [7]], ['FL'], ['CE'], ['CR']]):
+            c = {'auth': None, 'dis': [], 'plugins': [mod(0), new(1)], 'evs': evs}
+            if tcp:
+                c['tcp'] = 1
+            cs.append(c)
     dns = quiet(4)
     dns[6] = 'I'
     cs.append({'auth': None, 'dis': [], 'plugins': [quiet(0), dns, mod(1)], 'evs': http_script(req, fol)})
@@ -1100,8 +1170,10 @@ def generate(rng, tier):
         [['F', _base_req(tunnel=True), True, []], ['FL'], ['C', fol, []], ['U', '1603'], ['FL'], ['UE']],
         [['F', req, False, []], ['FL']],
         [['F', req, True, []]],
+        [['F', req, True, []], ['C', fol, []], ['CR']],
+        [['F', req, True, []], ['U', '6869'], ['CR'], ['UE']],
     ]
-    devs = [(h, a) for h in range(1, 6) for a in (['M', 'D'] + ([REJECTS[0], 'X'] if h <= 3 else []))] + [(6, 'I')]
+    devs = [(h, a) for h in range(1, 6) for a in (['N', 'P', 'D'] + ([REJECTS[0], 'X'] if h <= 3 else []))] + [(6, 'I')]
     tables = []
     for n in (1, 2, 3):
         for perm in itertools.permutations(range(n)):
@@ -1132,6 +1204,8 @@ def neighbours(case):
     for i in range(len(case['plugins'])):
         yield dict(case, plugins=case['plugins'][:i] + case['plugins'][i + 1:])
     yield dict(case, plugins=list(reversed(case['plugins'])))
+    yield dict(case, evs=case['evs'] + [['CR']])
+    yield dict(case, plugins=[[p[0]] + ['N' if a == 'M' else a for a in p[1:]] if p != ['A'] else p for p in case['plugins']])
 
 
 def search(rng):
@@ -1144,7 +1218,9 @@ def describe(case):
     out.append('first=' + (evs[0][0] if evs else 'none'))
     if evs and evs[0][0] == 'F':
         out.append('first-method=' + evs[0][1]['m'])
-    ends = [e[0] for e in evs if e[0] in ('UE', 'CE', 'CA')]
+    ends = [e[0] for e in evs if e[0] in ('UE', 'CE', 'CA', 'CR')]
+    if case.get('tcp'):
+        out.append('client=real-tcp')
     out.append('ending=' + (ends[0] if ends else 'reaped'))
     acts = set()
     for p in case['plugins']:
